@@ -117,6 +117,14 @@ var renderSchemes = []namedScheme{
 	{"colours foreign to the model", barcode.ColorScheme{Model: color.GrayModel, Background: color.RGBA{1, 2, 3, 255}, Foreground: color.NRGBA{200, 100, 50, 255}}},
 }
 
+func reverseBytes(b []byte) []byte {
+	out := make([]byte, len(b))
+	for i := range b {
+		out[len(b)-1-i] = b[i]
+	}
+	return out
+}
+
 func sameScheme(a, b barcode.ColorScheme) bool {
 	return a.Model == b.Model && a.Foreground == b.Foreground && a.Background == b.Background
 }
@@ -145,7 +153,14 @@ func evalRender(c *core.Ctx, cs *core.Case) {
 			c.Fail("C11", cs, "plain Encode reports colour scheme %v, want black on white", s)
 		}
 	}
-	mod := func(bc barcode.Barcode, x, y int) int { return bw(bc.At(x, y)) }
+	// module matrix of the plain symbol, taken now (a later encode must not change it)
+	plainBits := make([]int8, pb.Dx()*pb.Dy())
+	for y := 0; y < pb.Dy(); y++ {
+		for x := 0; x < pb.Dx(); x++ {
+			plainBits[y*pb.Dx()+x] = int8(bw(plain.At(x, y)))
+		}
+	}
+	mod := func(_ barcode.Barcode, x, y int) int { return int(plainBits[y*pb.Dx()+x]) }
 	for si, ns := range renderSchemes {
 		sc := ns.sc
 		var bc barcode.Barcode
@@ -199,6 +214,21 @@ func evalRender(c *core.Ctx, cs *core.Case) {
 		}
 		c.R.Count("render.pixels", int64(pb.Dx()*pb.Dy()))
 		_ = si
+	}
+	// render some other contents of the same family in between: what was returned must stay as it is
+	for _, alt := range [][]byte{append(append([]byte(nil), cs.S...), cs.S...), cs.S[:len(cs.S)/2], reverseBytes(cs.S)} {
+		sc := renderSchemes[6].sc
+		Safely(func() { fam.enc(alt, p, &sc) })
+		Safely(func() { fam.enc(alt, p, nil) })
+	}
+	for y := 0; y < pb.Dy(); y++ {
+		for x := 0; x < pb.Dx(); x++ {
+			if int8(bw(plain.At(x, y))) != plainBits[y*pb.Dx()+x] {
+				c.Fail("C11", cs, "module (%d,%d) of the plain symbol changed after other barcodes of the same family were rendered: every pixel of a returned barcode must stay the colour it was", x, y)
+				c.R.State(fmt.Sprintf("%s %dx%d", fam.name, pb.Dx(), pb.Dy()))
+				return
+			}
+		}
 	}
 	c.R.State(fmt.Sprintf("%s %dx%d", fam.name, pb.Dx(), pb.Dy()))
 }
@@ -268,6 +298,18 @@ func c11Body(c *core.Ctx) {
 	for _, s := range []string{"12", "0123456789", "5"} {
 		run(9, []byte(s), 0)
 		run(9, []byte(s), 1)
+	}
+	// many short QR contents: the mask (and thus the module pattern) must be the same under every scheme
+	Words(letters("0123456789"), 1, 3, func(w string, n int) bool {
+		if n < 3 || (w[2]-'0')%3 == 1 {
+			run(0, []byte(w), 0, 0)
+		}
+		return true
+	})
+	for _, s := range []string{"1", "12", "12345670", "0246", "98765432109876"} {
+		run(9, []byte(s), 0)
+		run(9, []byte(s), 1)
+		run(9, []byte(s+s), 1)
 	}
 	// Content()/Metadata() over the alphabets of the linear families (the evaluators of C05-C08 judge them)
 	enumC39C93(c, []string{"c39", "c93"}, 2)
